@@ -938,8 +938,8 @@ theorem litLoop_spec (es : List Elem) : ∀ (a : Arr) (index : Int), a.WF → 0 
         · rw [← ab1]
           exact ab2
 
-theorem baseArr_spec {v : Var} (h : v.WF) : (baseArr v).WF ∧ (baseArr v).abs = v.abs := by
-  unfold baseArr Var.abs
+theorem baseArr_spec {v : Var} (h : v.WF) : (baseArr v).WF ∧ (baseArr v).abs = v.absMap := by
+  unfold baseArr Var.absMap
   cases v.kind with
   | unknown => exact ⟨Arr.WF.dense _, rfl⟩
   | str => exact ⟨Arr.WF.dense _, rfl⟩
@@ -948,16 +948,18 @@ theorem baseArr_spec {v : Var} (h : v.WF) : (baseArr v).WF ∧ (baseArr v).abs =
 theorem wf_indexed {a : Arr} (w : a.WF) (str : Str) : (Var.mk .indexed true str a).WF :=
   ⟨w, (fun c => by cases c), fun _ => rfl⟩
 
-theorem setWithIndex_spec (v : Var) {base : Arr} (h : v.WF) (hb : base.WF) (i : Int) (s : Str) :
-    ∃ v', setWithIndex v base i s = .ok v' ∧ v'.WF ∧
-      v'.abs = (if resolve base.abs i < 0 then v.abs else base.abs.insert (resolve base.abs i) s) := by
+theorem setWithIndex_spec (v : Var) {base : Arr} (hb : base.WF) (i : Int) (s : Str) :
+    ∃ v', setWithIndex v base i s = .ok v' ∧
+      (resolve base.abs i < 0 → v' = v) ∧
+      (¬ resolve base.abs i < 0 → v'.WF ∧ v'.kind = .indexed ∧
+        v'.arr.abs = base.abs.insert (resolve base.abs i) s) := by
   simp only [setWithIndex, resolve_model hb]
   by_cases hj : resolve base.abs i < 0
-  · rw [if_pos hj, if_pos hj]; exact ⟨v, rfl, h, rfl⟩
-  · rw [if_neg hj, if_neg hj]
+  · rw [if_pos hj]; exact ⟨v, rfl, fun _ => rfl, fun c => absurd hj c⟩
+  · rw [if_neg hj]
     obtain ⟨a1, e1, w1, ab1⟩ := setElem_spec hb (resolve base.abs i) s (by omega)
     rw [e1]
-    exact ⟨_, rfl, wf_indexed w1 _, ab1⟩
+    exact ⟨_, rfl, fun c => absurd c hj, fun _ => ⟨wf_indexed w1 _, rfl, ab1⟩⟩
 
 theorem abs_nil_of_list_nil {a : Arr} (e : a.list = []) : a.abs = [] := by
   unfold Arr.abs
@@ -1019,136 +1021,6 @@ theorem appendZero_spec {a : Arr} (h : a.WF) (s : Str) :
     simp [SMap.lookup, optStr]
 
 theorem Var.WF.zero_var : Var.zero.WF := ⟨Arr.WF.dense _, fun _ => rfl, fun c => (c rfl).elim⟩
-
-/-- Every operation preserves the invariant and never panics; outside the recorded divergence
-    (`opOK`) it is the bash operation on the abstract map. -/
-theorem applyOp_spec (v : Var) (op : Op) (h : v.WF) :
-    ∃ v', applyOp v op = .ok v' ∧ v'.WF ∧ (opOK v op = true → v'.abs = specOp v.abs op) := by
-  obtain ⟨bw, bab⟩ := baseArr_spec h
-  cases op with
-  | assign es =>
-    obtain ⟨a', e, w, ab⟩ := litLoop_spec es ⟨[], none⟩ 0 (Arr.WF.dense _) (Int.le_refl _)
-    exact ⟨⟨.indexed, true, v.str, a'⟩, by simp only [applyOp, e, liftArr], wf_indexed w _, fun _ => ab⟩
-  | append es =>
-    obtain ⟨a', e, w, ab⟩ := litLoop_spec es (baseArr v) (indexedMax (baseArr v) + 1) bw
-      (by have := indexedMax_ge bw; omega)
-    refine ⟨⟨.indexed, true, v.str, a'⟩, by simp only [applyOp, e, liftArr], wf_indexed w _, fun _ => ?_⟩
-    rw [indexedMax_spec bw, bab] at ab
-    exact ab
-  | setElem i s =>
-    obtain ⟨v', e, w, ab⟩ := setWithIndex_spec v h bw i s
-    refine ⟨v', e, w, fun _ => ?_⟩
-    rw [ab, bab]; rfl
-  | setStr s =>
-    simp only [applyOp]
-    cases hk : v.kind with
-    | indexed =>
-      obtain ⟨v', e, w, ab⟩ := setWithIndex_spec v h h.arr 0 s
-      refine ⟨v', e, w, fun _ => ?_⟩
-      rw [ab]
-      simp [resolve, specOp, Var.abs, hk]
-    | unknown =>
-      refine ⟨_, rfl, ⟨h.arr, (fun c => by cases c), fun _ => rfl⟩, fun _ => ?_⟩
-      simp [Var.abs, hk, specOp, SMap.insert]
-    | str =>
-      refine ⟨_, rfl, ⟨h.arr, (fun c => by cases c), fun _ => rfl⟩, fun _ => ?_⟩
-      simp [Var.abs, hk, specOp, SMap.insert]
-  | appStr s =>
-    simp only [applyOp]
-    cases hk : v.kind with
-    | indexed =>
-      obtain ⟨a', e, w, ab⟩ := appendZero_spec h.arr s
-      refine ⟨⟨.indexed, true, v.str, a'⟩, by simp only [e, liftArr], wf_indexed w _, fun _ => ?_⟩
-      simp only [Var.abs, hk, specOp]
-      exact ab
-    | unknown =>
-      refine ⟨_, rfl, ⟨h.arr, (fun c => by cases c), fun _ => rfl⟩, fun _ => ?_⟩
-      simp [Var.abs, hk, specOp, SMap.insert, SMap.lookup, optStr, h.zero hk]
-    | str =>
-      refine ⟨_, rfl, ⟨h.arr, (fun c => by cases c), fun _ => rfl⟩, fun _ => ?_⟩
-      simp [Var.abs, hk, specOp, SMap.insert, SMap.lookup, optStr]
-  | appElem i s =>
-    simp only [applyOp]
-    cases hk : v.kind with
-    | indexed =>
-      simp only
-      obtain ⟨a1, e1, _, _⟩ := appendZero_spec h.arr s
-      rw [e1]
-      simp only
-      obtain ⟨v', e, w, _⟩ := setWithIndex_spec v h h.arr i v.str
-      exact ⟨v', e, w, fun ok => by simp [opOK, hk] at ok⟩
-    | unknown =>
-      simp only
-      obtain ⟨v', e, w, ab⟩ := setWithIndex_spec v h bw i (v.str ++ s)
-      refine ⟨v', e, w, fun _ => ?_⟩
-      rw [ab, bab]
-      have hv : v.abs = [] := by simp [Var.abs, hk]
-      simp only [specOp, hv, h.zero hk, SMap.lookup, optStr]
-    | str =>
-      simp only
-      obtain ⟨v', e, w, _⟩ := setWithIndex_spec v h bw i (v.str ++ s)
-      exact ⟨v', e, w, fun ok => by simp [opOK, hk] at ok⟩
-  | unsetElem i =>
-    simp only [applyOp]
-    cases hk : v.kind with
-    | indexed =>
-      simp only [resolve_model h.arr]
-      by_cases hj : resolve v.arr.abs i < 0
-      · rw [if_pos hj]
-        refine ⟨v, rfl, h, fun _ => ?_⟩
-        simp [specOp, Var.abs, hk, hj]
-      · rw [if_neg hj]
-        obtain ⟨a', e, w, ab⟩ := deleteElem_spec h.arr (resolve v.arr.abs i)
-        rw [e]
-        have hset : v.set = true := h.isset (by rw [hk]; intro c; cases c)
-        rw [hset]
-        refine ⟨_, rfl, wf_indexed w _, fun _ => ?_⟩
-        simp [specOp, Var.abs, hk, hj, ab]
-    | unknown =>
-      refine ⟨v, rfl, h, fun _ => ?_⟩
-      simp only [specOp, Var.abs, hk, SMap.erase]
-      split <;> rfl
-    | str =>
-      simp only
-      split
-      · next h0 =>
-        subst h0
-        refine ⟨_, rfl, Var.WF.zero_var, fun _ => ?_⟩
-        simp [specOp, Var.abs, hk, Var.zero, resolve, SMap.erase]
-      · next h0 =>
-        refine ⟨v, rfl, h, fun ok => ?_⟩
-        simp only [opOK, hk, bne_self_eq_false, Bool.false_or, decide_eq_true_eq] at ok
-        simp only [specOp, Var.abs, hk, resolve]
-        rw [if_neg (by omega), if_neg (by omega)]
-        simp only [SMap.erase]
-        rw [if_neg h0]
-  | unsetAll =>
-    simp only [applyOp]
-    split
-    · exact ⟨_, rfl, Var.WF.zero_var, fun _ => by simp [specOp, Var.abs, Var.zero]⟩
-    · next hs =>
-      refine ⟨v, rfl, h, fun _ => ?_⟩
-      have hk : v.kind = .unknown := by
-        cases hk : v.kind with
-        | unknown => rfl
-        | str => exact absurd (h.isset (by rw [hk]; intro c; cases c)) hs
-        | indexed => exact absurd (h.isset (by rw [hk]; intro c; cases c)) hs
-      simp [specOp, Var.abs, hk]
-
-theorem runOps_spec (ops : List Op) : ∀ (v : Var), v.WF →
-    ∃ v', runOps v ops = .ok v' ∧ v'.WF ∧ (runOK v ops = true → v'.abs = specRun v.abs ops) := by
-  induction ops with
-  | nil => intro v h; exact ⟨v, rfl, h, fun _ => rfl⟩
-  | cons op ops ih =>
-    intro v h
-    obtain ⟨v1, e1, w1, ab1⟩ := applyOp_spec v op h
-    obtain ⟨v2, e2, w2, ab2⟩ := ih v1 w1
-    refine ⟨v2, by simp only [runOps, e1, e2], w2, ?_⟩
-    intro ok
-    simp only [runOK, e1, Bool.and_eq_true] at ok
-    simp only [specRun, List.foldl_cons]
-    rw [← ab1 ok.1]
-    exact ab2 ok.2
 
 /-! ## E. reads -/
 
@@ -1386,5 +1258,159 @@ theorem sliceElems_spec {a : Arr} (h : a.WF) (offset length : Option Int)
     rw [if_neg (by omega)]
     refine ⟨_, rfl, ?_⟩
     rw [slicePos_nonneg _ _ hl0, take_min_length]
+
+/-! ## G. every operation, every sequence -/
+
+theorem appendWithIndex_spec (v : Var) {base : Arr} (hb : base.WF) (i : Int) (s : Str) :
+    ∃ v', appendWithIndex v base i s = .ok v' ∧
+      (resolve base.abs i < 0 → v' = v) ∧
+      (¬ resolve base.abs i < 0 → v'.WF ∧ v'.kind = .indexed ∧
+        v'.arr.abs = base.abs.insert (resolve base.abs i)
+          (optStr (base.abs.lookup (resolve base.abs i)) ++ s)) := by
+  simp only [appendWithIndex, resolve_model hb]
+  by_cases hj : resolve base.abs i < 0
+  · rw [if_pos hj]; exact ⟨v, rfl, fun _ => rfl, fun c => absurd hj c⟩
+  · rw [if_neg hj, indexedVal_spec hb _ (by omega)]
+    simp only
+    obtain ⟨a1, e1, w1, ab1⟩ := setElem_spec hb (resolve base.abs i)
+      (optStr (base.abs.lookup (resolve base.abs i)) ++ s) (by omega)
+    rw [e1]
+    exact ⟨_, rfl, fun c => absurd c hj, fun _ => ⟨wf_indexed w1 _, rfl, ab1⟩⟩
+
+theorem abs_of_indexed {v : Var} (hk : v.kind = .indexed) : v.abs = ⟨.indexed, v.arr.abs⟩ := by
+  simp [Var.abs, Var.absMap, hk]
+
+/-- Every operation preserves the invariant, never panics, and is the bash operation on the
+    abstract variable. -/
+theorem applyOp_spec (v : Var) (op : Op) (h : v.WF) :
+    ∃ v', applyOp v op = .ok v' ∧ v'.WF ∧ v'.abs = specOp v.abs op := by
+  obtain ⟨bw, bab⟩ := baseArr_spec h
+  cases op with
+  | assign es =>
+    obtain ⟨a', e, w, ab⟩ := litLoop_spec es ⟨[], none⟩ 0 (Arr.WF.dense _) (Int.le_refl _)
+    refine ⟨⟨.indexed, true, v.str, a'⟩, by simp only [applyOp, e, liftArr], wf_indexed w _, ?_⟩
+    rw [abs_of_indexed rfl]
+    simp only [specOp, ab]
+    rfl
+  | append es =>
+    obtain ⟨a', e, w, ab⟩ := litLoop_spec es (baseArr v) (indexedMax (baseArr v) + 1) bw
+      (by have := indexedMax_ge bw; omega)
+    refine ⟨⟨.indexed, true, v.str, a'⟩, by simp only [applyOp, e, liftArr], wf_indexed w _, ?_⟩
+    rw [indexedMax_spec bw, bab] at ab
+    rw [abs_of_indexed rfl]
+    simp only [specOp, ab]
+    rfl
+  | setElem i s =>
+    obtain ⟨v', e, hneg, hpos⟩ := setWithIndex_spec v bw i s
+    rw [bab] at hneg hpos
+    refine ⟨v', e, ?_, ?_⟩
+    · by_cases hj : resolve v.absMap i < 0
+      · rw [hneg hj]; exact h
+      · exact (hpos hj).1
+    · by_cases hj : resolve v.absMap i < 0
+      · rw [hneg hj]
+        simp [specOp, Var.abs, hj]
+      · obtain ⟨_, k, ab⟩ := hpos hj
+        rw [abs_of_indexed k, ab]
+        simp [specOp, Var.abs, hj]
+  | appElem i s =>
+    obtain ⟨v', e, hneg, hpos⟩ := appendWithIndex_spec v bw i s
+    rw [bab] at hneg hpos
+    refine ⟨v', e, ?_, ?_⟩
+    · by_cases hj : resolve v.absMap i < 0
+      · rw [hneg hj]; exact h
+      · exact (hpos hj).1
+    · by_cases hj : resolve v.absMap i < 0
+      · rw [hneg hj]
+        simp [specOp, Var.abs, hj]
+      · obtain ⟨_, k, ab⟩ := hpos hj
+        rw [abs_of_indexed k, ab]
+        simp [specOp, Var.abs, hj]
+  | setStr s =>
+    simp only [applyOp]
+    cases hk : v.kind with
+    | indexed =>
+      obtain ⟨v', e, _, hpos⟩ := setWithIndex_spec v h.arr 0 s
+      have hj : ¬ resolve v.arr.abs 0 < 0 := by simp [resolve]
+      obtain ⟨w, k, ab⟩ := hpos hj
+      refine ⟨v', e, w, ?_⟩
+      rw [abs_of_indexed k, ab, abs_of_indexed hk]
+      simp [specOp, resolve]
+    | unknown =>
+      refine ⟨_, rfl, ⟨h.arr, (fun c => by cases c), fun _ => rfl⟩, ?_⟩
+      simp [Var.abs, Var.absMap, hk, specOp]
+    | str =>
+      refine ⟨_, rfl, ⟨h.arr, (fun c => by cases c), fun _ => rfl⟩, ?_⟩
+      simp [Var.abs, Var.absMap, hk, specOp]
+  | appStr s =>
+    simp only [applyOp]
+    cases hk : v.kind with
+    | indexed =>
+      obtain ⟨a', e, w, ab⟩ := appendZero_spec h.arr s
+      refine ⟨⟨.indexed, true, v.str, a'⟩, by simp only [e, liftArr], wf_indexed w _, ?_⟩
+      rw [abs_of_indexed rfl, abs_of_indexed hk]
+      simp only [specOp, ab]
+    | unknown =>
+      refine ⟨_, rfl, ⟨h.arr, (fun c => by cases c), fun _ => rfl⟩, ?_⟩
+      simp [Var.abs, Var.absMap, hk, specOp, SMap.lookup, optStr, h.zero hk]
+    | str =>
+      refine ⟨_, rfl, ⟨h.arr, (fun c => by cases c), fun _ => rfl⟩, ?_⟩
+      simp [Var.abs, Var.absMap, hk, specOp, SMap.lookup, optStr]
+  | unsetElem i =>
+    simp only [applyOp]
+    cases hk : v.kind with
+    | indexed =>
+      simp only [resolve_model h.arr]
+      by_cases hj : resolve v.arr.abs i < 0
+      · rw [if_pos hj]
+        refine ⟨v, rfl, h, ?_⟩
+        rw [abs_of_indexed hk]
+        simp [specOp, hj]
+      · rw [if_neg hj]
+        obtain ⟨a', e, w, ab⟩ := deleteElem_spec h.arr (resolve v.arr.abs i)
+        rw [e]
+        have hset : v.set = true := h.isset (by rw [hk]; intro c; cases c)
+        rw [hset]
+        refine ⟨_, rfl, wf_indexed w _, ?_⟩
+        rw [abs_of_indexed rfl, abs_of_indexed hk]
+        simp [specOp, hj, ab]
+    | unknown =>
+      refine ⟨v, rfl, h, ?_⟩
+      simp [specOp, Var.abs, hk]
+    | str =>
+      simp only
+      split
+      · next h0 =>
+        subst h0
+        refine ⟨_, rfl, Var.WF.zero_var, ?_⟩
+        simp [specOp, Var.abs, Var.absMap, hk, Var.zero, SVar.unset]
+      · next h0 =>
+        refine ⟨v, rfl, h, ?_⟩
+        simp [specOp, Var.abs, hk, h0]
+  | unsetAll =>
+    simp only [applyOp]
+    split
+    · exact ⟨_, rfl, Var.WF.zero_var, by simp [specOp, Var.abs, Var.absMap, Var.zero, SVar.unset]⟩
+    · next hs =>
+      refine ⟨v, rfl, h, ?_⟩
+      have hk : v.kind = .unknown := by
+        cases hk : v.kind with
+        | unknown => rfl
+        | str => exact absurd (h.isset (by rw [hk]; intro c; cases c)) hs
+        | indexed => exact absurd (h.isset (by rw [hk]; intro c; cases c)) hs
+      simp [specOp, Var.abs, Var.absMap, hk, SVar.unset]
+
+theorem runOps_spec (ops : List Op) : ∀ (v : Var), v.WF →
+    ∃ v', runOps v ops = .ok v' ∧ v'.WF ∧ v'.abs = specRun v.abs ops := by
+  induction ops with
+  | nil => intro v h; exact ⟨v, rfl, h, rfl⟩
+  | cons op ops ih =>
+    intro v h
+    obtain ⟨v1, e1, w1, ab1⟩ := applyOp_spec v op h
+    obtain ⟨v2, e2, w2, ab2⟩ := ih v1 w1
+    refine ⟨v2, by simp only [runOps, e1, e2], w2, ?_⟩
+    simp only [specRun, List.foldl_cons]
+    rw [← ab1]
+    exact ab2
 
 end ShVerif.C33
